@@ -3101,7 +3101,8 @@ def stacked_cases(rng: random.Random | None, n: int) -> list[dict]:
            {"stack": ["create", "resume"], "sibling": None, "timeline": ["edit", "restart", "mark"], "listing": True},
            {"stack": ["create", "update", "delete", "resume"], "sibling": {"kind": "update", "temp": 2},
             "timeline": ["edit", "restart", "edit", "mark"], "listing": False},
-           {"stack": ["update", "resume"], "sibling": {"kind": "delete", "temp": 2}, "timeline": ["edit", "mark"], "listing": True}]
+           {"stack": ["update", "resume"], "sibling": {"kind": "delete", "temp": 2}, "timeline": ["edit", "mark"], "listing": True},
+           {"stack": ["delete", "resume+", "create"], "sibling": {"kind": "create", "temp": 3}, "timeline": ["mark!"], "listing": True}]
     while rng is not None and len(out) < n:
         stack = list(rng.choice(STACKS))
         rng.shuffle(stack)
@@ -3244,9 +3245,12 @@ async def run_stacked_case(env: Env, rec: Rec, case: dict) -> None:
             problems.append(f"cause #{e_} ({ep['kind']}{', first sight' if ep['initial'] else ''}): h -- registered for {case['stack']} -- "
                             f"was invoked {n_h} times, wanted {want}")
             # the shape of C15-F10: not invoked at all, for a cause whose registration comes AFTER a resuming one, in a
-            # process that has not yet handled the object to the end once (restarted in the middle of a handling)
+            # process that has not yet handled the object to the end once: since it first saw the object by listing (at
+            # its start, or after a restart) every cause was superseded before its handling ended
             resuming_first = any(k_ == "resume" for k_ in kinds[:kinds.index(ep["kind"])]) if ep["kind"] in kinds else False
-            residual.append(want == 1 and n_h == 0 and resuming_first and any(x.get("murky") for x in episodes[:e_]))
+            listings = [n_ for n_, x in enumerate(episodes[:e_]) if x["kind"] == "resume" or (n_ == 0 and case["listing"])]
+            unsettled = bool(listings) and all(x["superseded"] for x in episodes[listings[-1]:e_])
+            residual.append(want == 1 and n_h == 0 and resuming_first and unsettled)
         if sib and not ep["superseded"] and ep["kind"] == sib["kind"] and not ep.get("unseen"):
             n_s = sum(1 for c in calls if c["fn"] == "sib" and c["episode"] == e_)
             if n_s != sib["temp"] + 1:
